@@ -26,8 +26,9 @@ vf_i32 ga_vf_guard(vf_i32 s) { return pguard(0, s, 3000); }
 vf_i32 gb_vf_guard(vf_i32 s) { return pguard(1, s, 3000); }
 vf_i32 ga_vf_guardc(vf_i32 s) { return vf_gv[s & 31]; }   /* completion guards: consultations are not compared (C10/C13 quantifier) */
 vf_i32 gb_vf_guardc(vf_i32 s) { return vf_gv[s & 31]; }
-vf_i32 ga_vf_hook(vf_i32 s) { return 0; }
-vf_i32 gb_vf_hook(vf_i32 s) { return 0; }
+int32_t vf_pthrow[2] = {-1, -1};    /* C13 with exceptions: the behaviour position that throws in the step, per configuration (one fault per step) */
+vf_i32 ga_vf_hook(vf_i32 s) { if ((int32_t)s == vf_pthrow[0]) { vf_pthrow[0] = -1; return 1; } return 0; }
+vf_i32 gb_vf_hook(vf_i32 s) { if ((int32_t)s == vf_pthrow[1]) { vf_pthrow[1] = -1; return 1; } return 0; }
 #define VF_G1(i, e) vf_gv[i] = (uint8_t)(e);
 #define VF_G8(b, E) E(b) E(b + 1) E(b + 2) E(b + 3) E(b + 4) E(b + 5) E(b + 6) E(b + 7)
 void vf_set_guards(uint32_t m) {
